@@ -11,6 +11,7 @@ A harness is written once and runs in two modes:
 """
 import fractions
 import math
+import os
 import time
 import types
 
@@ -418,10 +419,15 @@ class Ctx:
         # a condition that is valid / unsatisfiable on its own needs no path condition (keeps heavy contexts out of trivial tests)
         if tsize(cond, 400) <= 400:
             for val, f in ((True, z3.Not(cond)), (False, cond)):
+                t0 = time.time()
                 sv = z3.Solver()
                 sv.set('timeout', 300)
                 sv.add(f)
-                if str(sv.check()) == 'unsat':
+                r0 = str(sv.check())
+                self.tq += time.time() - t0
+                if time.time() - t0 > 2 and os.environ.get('SYMX_DEBUG'):
+                    print('slow standalone check %.1fs: %s' % (time.time() - t0, str(f)[:300]))
+                if r0 == 'unsat':
                     self.decisions.append(val)
                     self.pos += 1
                     self.pc.append(cond if val else z3.Not(cond))
